@@ -1,5 +1,184 @@
 import U3.Model.PoolKey
+import U3.Lemmas.PoolKey
+/-!
+# C18 — connections are never shared across differing connection settings
+
+Theorems about `U3.PoolKey` (the model the driver `poolkey` executes against the real
+`PoolManager`).  `normalize` is `_default_key_normalizer` over the *generated* `PoolKey._fields`;
+the keyword tables are the *generated* constructor signatures.
+-/
 namespace U3.Props
 open U3 U3.PoolKey
-theorem C18_placeholder : (1:Nat) = 1 := rfl
+
+/-! ## the key determines the settings -/
+
+/-- Equal pool keys ⇒ equivalent request contexts (equal up to scheme/host ASCII case, dict item
+order, list-vs-tuple, absent-vs-`None`, `blocksize` default) — for arbitrary values of every
+keyword.  `IsDict`: a Python dict has each key once.  `NoClash`: no keyword is `"key_"` + another
+keyword of the same context; this holds for every context made of constructor-accepted keywords
+(`C18_accepted_no_clash`) and cannot be dropped (`C18_clash_witness`). -/
+theorem C18_key_injective {c₁ c₂ : Ctx} {k : Key}
+    (d₁ : IsDict c₁) (d₂ : IsDict c₂) (n₁ : NoClash c₁) (n₂ : NoClash c₂)
+    (h₁ : normalize c₁ = .ok k) (h₂ : normalize c₂ = .ok k) : CtxEquiv c₁ c₂ :=
+  injective_with d₁ d₂ n₁ n₂ h₁ h₂
+
+/-- every context whose keywords are accepted by some pool / connection constructor (or are
+`scheme` / `_socks_options`) is clash-free: table fact over the generated signatures -/
+theorem C18_accepted_no_clash {c : Ctx} (h : ∀ k ∈ keys c, k ∈ acceptedKeywords) : NoClash c := by
+  have table : ∀ a ∈ acceptedKeywords, keyPrefix ++ a ∉ acceptedKeywords := by decide +kernel
+  intro k hk hm
+  exact table k (h k hk) (h _ hm)
+
+/-- the full-strength statement on the property's domain: contexts over accepted keywords -/
+theorem C18_key_injective_accepted {c₁ c₂ : Ctx} {k : Key}
+    (d₁ : IsDict c₁) (d₂ : IsDict c₂)
+    (a₁ : ∀ x ∈ keys c₁, x ∈ acceptedKeywords) (a₂ : ∀ x ∈ keys c₂, x ∈ acceptedKeywords)
+    (h₁ : normalize c₁ = .ok k) (h₂ : normalize c₂ = .ok k) : CtxEquiv c₁ c₂ :=
+  C18_key_injective d₁ d₂ (C18_accepted_no_clash a₁) (C18_accepted_no_clash a₂) h₁ h₂
+
+/-- contexts that are not equivalent get distinct keys -/
+theorem C18_inequivalent_distinct {c₁ c₂ : Ctx} {k₁ k₂ : Key}
+    (d₁ : IsDict c₁) (d₂ : IsDict c₂) (n₁ : NoClash c₁) (n₂ : NoClash c₂)
+    (h₁ : normalize c₁ = .ok k₁) (h₂ : normalize c₂ = .ok k₂) (hne : ¬ CtxEquiv c₁ c₂) : k₁ ≠ k₂ := by
+  intro e; subst e
+  exact hne (C18_key_injective d₁ d₂ n₁ n₂ h₁ h₂)
+
+/-- changing the value of exactly one keyword to a non-equivalent value changes the key -/
+theorem C18_differs_in_one {c : Ctx} {kw : Str} {v : Val} {k₁ k₂ : Key}
+    (d : IsDict c) (d' : IsDict (set c kw v)) (n : NoClash c) (n' : NoClash (set c kw v))
+    (h₁ : normalize c = .ok k₁) (h₂ : normalize (set c kw v) = .ok k₂)
+    (hne : ¬ FieldEquiv kw (optV (get c kw)) v) : k₁ ≠ k₂ := by
+  apply C18_inequivalent_distinct d d' n n' h₁ h₂
+  intro he
+  have := he kw
+  rw [get_set] at this
+  simp only [if_true, optV, Option.getD_some] at this
+  exact hne this
+
+/-! ## every keyword is keyed or rejected -/
+
+/-- a keyword that is no `PoolKey` field makes the key constructor fail — with `TypeError` once
+the lower-casing / freezing half went through -/
+theorem C18_unknown_rejected {c : Ctx} {kw : Str} (d : IsDict c) (n : NoClash c)
+    (hk : kw ∈ keys c) (hf : keyField kw ∉ Gen.poolKeyFields) :
+    (∀ k, normalize c ≠ .ok k) ∧ (∀ c₆, pre c = .ok c₆ → normalize c = .error .typeError) := by
+  constructor
+  · intro k h
+    exact hf ((normalize_spec d n h).2.1 kw hk)
+  · intro c₆ h₆
+    exact normalize_unknown d n hk hf h₆
+
+/-- Completeness over the generated signatures: every keyword named by a pool or connection
+constructor is a `PoolKey` field (after `key_` prefixing), or positional, or one of the hand-listed
+internal keywords — and those are rejected by the normaliser. -/
+theorem C18_every_keyword_keyed_or_rejected :
+    ∀ kw ∈ Gen.poolCtorKeywords ++ Gen.connCtorKeywords,
+      keyField kw ∈ Gen.poolKeyFields ∨ kw ∈ positional ∨
+      (kw ∈ internalKeywords ∧
+        ∀ c, IsDict c → NoClash c → kw ∈ keys c → ∀ k, normalize c ≠ .ok k) := by
+  have table : ∀ kw ∈ Gen.poolCtorKeywords ++ Gen.connCtorKeywords,
+      keyField kw ∈ Gen.poolKeyFields ∨ kw ∈ positional ∨
+        (kw ∈ internalKeywords ∧ keyField kw ∉ Gen.poolKeyFields) := by decide +kernel
+  intro kw hkw
+  rcases table kw hkw with h | h | ⟨h, hf⟩
+  · exact Or.inl h
+  · exact Or.inr (Or.inl h)
+  · exact Or.inr (Or.inr ⟨h, fun c d n hk => (C18_unknown_rejected d n hk hf).1⟩)
+
+/-- the keywords `_new_pool` drops for `http` pools are all key fields, and none of them is a
+keyword of `HTTPConnection` / `HTTPConnectionPool`: nothing an http connection uses is dropped -/
+theorem C18_ssl_keywords_keyed_and_unused_by_http :
+    ∀ kw ∈ Gen.sslKeywords, keyField kw ∈ Gen.poolKeyFields ∧
+      kw ∉ Gen.httpConnKeywords ∧ kw ∉ Gen.httpPoolKeywords := by decide +kernel
+
+/-- the named parameters of the two managers are the known manager-level ones (a new one needs a
+look at how it reaches the pool key) -/
+theorem C18_manager_keywords_accounted :
+    ∀ kw ∈ Gen.poolManagerKeywords ++ Gen.proxyManagerKeywords, kw ∈ managerLevelKeywords := by
+  decide +kernel
+
+/-! ## per-request overrides never alter the manager's defaults -/
+
+/-- the value a merged context has for keyword `x`: the override wins, `None` deletes -/
+theorem C18_merge_semantics (defaults o : Ctx) (d : IsDict o) (x : Str) :
+    get (merge defaults (some o)) x =
+      match get o x with
+      | none => get defaults x
+      | some .none => none
+      | some v => some v := by
+  unfold merge
+  cases o with
+  | nil => simp
+  | cons p t =>
+    simp only [List.isEmpty_cons, Bool.false_eq_true, if_false]
+    exact get_foldl_merge _ d defaults x
+
+/-- no request changes the manager's defaults (functionally trivial; the aliasing half — that the
+real code copies `connection_pool_kw` — is carried by the correspondence run) -/
+theorem C18_merge_pure (m : Mgr) (host : Option Str) (port : Val) (scheme : Option Str)
+    (kw : Option Ctx) (rc : Ctx) :
+    (fromHost m host port scheme kw).1.defaults = m.defaults ∧
+    (fromContext m rc).1.defaults = m.defaults ∧ merge m.defaults none = m.defaults := by
+  have hc : ∀ rc, (fromContext m rc).1.defaults = m.defaults := by
+    intro rc
+    unfold fromContext
+    dsimp only
+    repeat' split
+    all_goals rfl
+  refine ⟨?_, hc rc, rfl⟩
+  unfold fromHost
+  split
+  · rfl
+  · exact hc _
+
+/-! ## the clash: why `NoClash` is needed -/
+
+/-- `{"file": "X", "key_file": "Y"}` and `{"file": "X", "key_file": "Z"}` get the same key although
+they differ in `key_file`: the renaming loop overwrites `key_file` with `file`'s value.  (`file` is
+accepted by no constructor, so no connection can be made from such a context.) -/
+theorem C18_clash_witness :
+    ∃ c₁ c₂ : Ctx, IsDict c₁ ∧ IsDict c₂ ∧ normalize c₁ = normalize c₂ ∧
+      (∃ k, normalize c₁ = .ok k) ∧ ¬ CtxEquiv c₁ c₂ := by
+  refine ⟨[(kScheme, .str kHttp), (kHost, .str (lit "a")), (lit "file", .str (lit "X")), (lit "key_file", .str (lit "Y"))],
+          [(kScheme, .str kHttp), (kHost, .str (lit "a")), (lit "file", .str (lit "X")), (lit "key_file", .str (lit "Z"))],
+          by decide, by decide, by decide +kernel, exists_of_isOk (by decide +kernel), ?_⟩
+  intro h
+  have := h (lit "key_file")
+  rw [fieldEquiv_plain (by decide) (by decide) (by decide) (by decide)] at this
+  revert this
+  decide +kernel
+
+/-! ## non-vacuity -/
+
+def exA : Ctx := [(kScheme, .str (lit "HTTPS")), (kHost, .str (lit "Example.COM")), (kPort, .int 443),
+  (kHeaders, .dict [(lit "B", lit "2"), (lit "A", lit "1")]), (lit "ssl_context", .obj 1),
+  (kSocketOptions, .list [.list [.int 6, .int 1, .int 1]])]
+def exB : Ctx := [(kHost, .str (lit "example.com")), (kScheme, .str (lit "https")),
+  (kHeaders, .dict [(lit "A", lit "1"), (lit "B", lit "2")]), (kPort, .int 443), (lit "ssl_context", .obj 1),
+  (kSocketOptions, .list [.list [.int 6, .int 1, .int 1]]), (lit "timeout", .none), (kBlocksize, .int 16384)]
+
+/-- hypotheses of `C18_key_injective` are satisfiable by two syntactically different contexts -/
+example : IsDict exA ∧ IsDict exB ∧ NoClash exA ∧ NoClash exB ∧ normalize exA = normalize exB ∧
+    ∃ k, normalize exA = .ok k := by
+  refine ⟨by decide, by decide, by decide, by decide, by decide +kernel, exists_of_isOk (by decide +kernel)⟩
+
+/-- `C18_differs_in_one`: another `ssl_context` object gives another key -/
+example : isOk (normalize exA) = true ∧ isOk (normalize (set exA (lit "ssl_context") (.obj 2))) = true ∧
+    normalize exA ≠ normalize (set exA (lit "ssl_context") (.obj 2)) ∧
+    IsDict (set exA (lit "ssl_context") (.obj 2)) ∧ NoClash (set exA (lit "ssl_context") (.obj 2)) ∧
+    ¬ FieldEquiv (lit "ssl_context") (optV (get exA (lit "ssl_context"))) (.obj 2) := by
+  refine ⟨by decide +kernel, by decide +kernel, by decide +kernel, by decide +kernel, by decide +kernel, ?_⟩
+  rw [fieldEquiv_plain (by decide) (by decide) (by decide) (by decide)]
+  decide +kernel
+
+/-- `C18_unknown_rejected`: `proxy` (a connection keyword outside `PoolKey`) is rejected -/
+example : normalize (exA ++ [(lit "proxy", .obj 3)]) = .error .typeError ∧
+    keyField (lit "proxy") ∉ Gen.poolKeyFields := by
+  refine ⟨by decide +kernel, by decide +kernel⟩
+
+/-- `C18_merge_semantics`: override, delete, keep -/
+example : merge [(lit "timeout", .int 3), (lit "retries", .int 2), (lit "block", .bool true)]
+    (some [(lit "timeout", .int 7), (lit "retries", .none), (lit "maxsize", .int 5)]) =
+    [(lit "timeout", .int 7), (lit "block", .bool true), (lit "maxsize", .int 5)] := by decide +kernel
+
 end U3.Props
